@@ -1160,6 +1160,38 @@ def inline_new_helpers(fx, known_fn_names, max_blocks=400, passes=3):
                 changed = True
             if not changed:
                 break
+    # a helper that is no longer referenced anywhere after inlining is dead duplicate code: its body is dropped, so that
+    # whole-program inventories (panic sites, nondeterminism, hide classification) do not count its contents twice
+    if done:
+        inl = set(cq for _, cq in done)
+        refs = set()
+        for cr in fx.crates.values():
+            for b in cr.bodies:
+                for bl in b.blocks:
+                    t = bl["term"]
+                    if t["k"] == "call":
+                        for key in ("callee", "decl"):
+                            if t.get(key) is not None:
+                                refs.add(cr.q[t[key]])
+                        for i in t.get("fnitems", []):
+                            refs.add(cr.q[i])
+                        if isinstance(t.get("func"), dict) and "fn" in t["func"]:
+                            refs.add(cr.q[t["func"]["fn"]])
+                        for a in t["args"]:
+                            if isinstance(a, dict) and "fn" in a:
+                                refs.add(cr.q[a["fn"]])
+                    for st in bl["stmts"]:
+                        if st["k"] == "assign":
+                            for o in rv_operands(st["rv"]):
+                                if isinstance(o, dict) and "fn" in o:
+                                    refs.add(cr.q[o["fn"]])
+        for cr in fx.crates.values():
+            dead = [b for b in cr.bodies if b.q in inl and b.q not in refs and b.kind in ("Fn", "AssocFn")]
+            for b in dead:
+                cr.bodies.remove(b)
+                cr.by_def.pop(b.defi, None)
+                if b in fx.by_q.get(b.q, []):
+                    fx.by_q[b.q].remove(b)
     fx._cg = {}
     return done
 
@@ -1268,3 +1300,119 @@ def undo_field_renames(fx, known_fields):
             b._defsites = None
             b.__dict__.pop("_expr_memo", None)
     return [(p, old, new) for (p, new), old in ren.items()]
+
+
+def forward_expression_temps(fx):
+    """`x = match e { A => a, B => b }` (and `x = if c { a } else { b }`) compiles to an unnamed temporary assigned in every arm
+    and moved into x at the join; `match e { A => x = a, B => x = b }` assigns x in the arms.  Both are normalised to the
+    second form: when an unnamed temporary has several whole-value definitions, is used exactly once — by `P = move T` — and
+    every definition reaches that statement through empty goto/drop blocks only, each `T = v` becomes `P = v` and the
+    move is removed.  (Nothing can observe P between an arm's assignment and the join, so behaviour is unchanged.)
+    Returns the number of temporaries forwarded."""
+    n = 0
+    for cr in fx.crates.values():
+        for b in cr.bodies:
+            blocks = b.blocks
+            uses = defaultdict(int)
+            defs = defaultdict(list)
+            moves = {}
+
+            def count_op(o):
+                if isinstance(o, dict) and ("mv" in o or "cp" in o):
+                    p = o.get("mv", o.get("cp"))
+                    uses[p if isinstance(p, int) else p[0]] += 1
+                    if isinstance(p, list):
+                        for el in p[1:]:
+                            m = re.fullmatch(r"\[_(\d+)\]", el)
+                            if m:
+                                uses[int(m.group(1))] += 1
+
+            def count_place_read(p):
+                uses[p if isinstance(p, int) else p[0]] += 1
+            for bi, bl in enumerate(blocks):
+                for si, st in enumerate(bl["stmts"]):
+                    if st["k"] != "assign":
+                        continue
+                    rv = st["rv"]
+                    for o in rv_operands(rv):
+                        count_op(o)
+                    if "place" in rv:
+                        count_place_read(rv["place"])
+                    pl = st["place"]
+                    if isinstance(pl, int):
+                        defs[pl].append((bi, si))
+                    else:
+                        if len(pl) > 1:
+                            uses[pl[0]] += 1      # writing through a projection reads the base
+                        else:
+                            defs[pl[0]].append((bi, si))
+                    if rv["k"] == "use" and isinstance(rv["op"], dict) and "mv" in rv["op"] and isinstance(rv["op"]["mv"], int):
+                        moves.setdefault(rv["op"]["mv"], []).append((bi, si))
+                t = bl["term"]
+                k = t["k"]
+                if k == "call":
+                    for a in t["args"]:
+                        count_op(a)
+                    if isinstance(t.get("func"), dict):
+                        count_op(t["func"])
+                    d = t["dest"]
+                    if isinstance(d, int):
+                        defs[d].append((bi, "term"))
+                    else:
+                        uses[d[0]] += 1
+                elif k == "switch":
+                    count_op(t["op"])
+                elif k == "drop":
+                    pass
+                elif k == "assert":
+                    for f in ("cond", "a", "b"):
+                        if isinstance(t.get(f), dict):
+                            count_op(t[f])
+            changed = False
+            for T, ds in defs.items():
+                if len(ds) < 2 or b.locals[T][1] or T <= b.argc or uses[T] != 1 or len(moves.get(T, [])) != 1:
+                    continue
+                if any(si == "term" for _, si in ds):
+                    continue
+                jb, js = moves[T][0]
+                P = blocks[jb]["stmts"][js]["place"]
+                # the join statement must be the first statement of its block, reached from every definition through empty blocks
+                if js != 0:
+                    continue
+                ok = True
+                for (db, dsi) in ds:
+                    if dsi != len(blocks[db]["stmts"]) - 1:
+                        ok = False
+                        break
+                    cur, steps = db, 0
+                    while ok:
+                        t = blocks[cur]["term"]
+                        nxt = t.get("target") if t["k"] in ("goto", "drop") else None
+                        if nxt is None:
+                            ok = False
+                        elif nxt == jb:
+                            break
+                        elif blocks[nxt]["stmts"] or steps > 6:
+                            ok = False
+                        else:
+                            cur = nxt
+                            steps += 1
+                    if not ok:
+                        break
+                if not ok:
+                    continue
+                # a drop of T on the way would now drop nothing we track; drops of P's base in those blocks would be observable: refuse
+                for (db, dsi) in ds:
+                    blocks[db]["stmts"][dsi] = dict(blocks[db]["stmts"][dsi], place=P)
+                blocks[jb]["stmts"] = blocks[jb]["stmts"][1:]
+                # indices of later statements in the join block shifted: recompute lazily
+                changed = True
+                n += 1
+                break_outer = True
+                # statement indices changed: stop after one rewrite per pass of this body and redo
+                break
+            if changed:
+                b._defsites = None
+                b._calls = None
+                b.__dict__.pop("_expr_memo", None)
+    return n
